@@ -161,6 +161,34 @@ func (e *env) ercOf(tk, a common.Address) int64 {
 	return b.Int64()
 }
 
+// totalSupply() of an ERC-20 contract of the harness (0 for "no contract")
+func (e *env) supplyOf(tk common.Address) int64 {
+	if tk == (common.Address{}) {
+		return 0
+	}
+	var res struct{ Value *big.Int }
+	if err := e.s.App.EvmKeeper.QueryContract(e.s.Ctx, e.okC, tk, contract.GetFIP20().ABI, "totalSupply", &res); err != nil {
+		panic(err)
+	}
+	return res.Value.Int64()
+}
+
+// checkLedger: every ERC-20 token in existence is backed one to one by its coin in the erc20 module account
+// (Lean: erc20_supply_backed)
+func (e *env) checkLedger(after string) {
+	mod := e.modAddr(erc20types.ModuleName)
+	chk := func(name string, tk common.Address, denom string) {
+		if sup, esc := e.supplyOf(tk), e.bal(mod, denom); sup != esc {
+			e.out.Violate(fmt.Sprintf("ledger: ERC-20 supply of %s is %d but the erc20 module escrows %d of its coin after `%s`", name, sup, esc, after))
+		}
+	}
+	chk("the aliased token", e.ercBase, baseA)
+	chk("the native coin's token", e.ercNat, natD)
+	for _, l := range e.order {
+		chk(fmt.Sprintf("the voucher token of channel %d", l), e.chans[l].ercV, e.chans[l].vV)
+	}
+}
+
 func (e *env) bal(a []byte, denom string) int64 {
 	if denom == "" {
 		return 0
@@ -528,7 +556,8 @@ func (e *env) recv(l int, tok, rk string, to int, amt int64, memo string, snd in
 		tm = e.bal(e.modAddr(transfertypes.ModuleName), den)
 	}
 	e.out.Emit(fmt.Sprintf("recv %d %s %s %d %d %s %d", l, tok, rk, to, amt, memo, snd),
-		fmt.Sprintf("ack=%s bk=%d e=%d esc=%d tm=%d m=%d cs=%s", ackS, e.bal(a.Bytes(), den), e.ercOf(e.ercToken(tok, ch), a), esc, tm, e.marker(), e.callerLabel()))
+		fmt.Sprintf("ack=%s bk=%d e=%d esc=%d tm=%d sup=%d m=%d cs=%s", ackS, e.bal(a.Bytes(), den), e.ercOf(e.ercToken(tok, ch), a), esc, tm, e.supplyOf(e.ercToken(tok, ch)), e.marker(), e.callerLabel()))
+	e.checkLedger("recv")
 	e.out.Count("recv:" + tok + ":" + rk + ":" + memo + ":" + ackS)
 	e.out.Count(fmt.Sprintf("recv-channel:local%s", map[bool]string{true: "=", false: "!="}[ch.l == ch.r]+"counterparty"))
 	e.out.Nontrivial("recv|" + tok + "|" + rk + "|" + memo + "|" + ackS)
@@ -704,6 +733,7 @@ func (e *env) send(l, from int, tok string, amt int64, evm bool) {
 		e.out.Violate("send: a transfer that is not refundable in ERC-20 form changed the tracking records")
 	}
 	e.checkRecords(op)
+	e.checkLedger(op)
 }
 
 func firstWords(s string) string {
@@ -778,7 +808,8 @@ func (e *env) settle(l int, seq uint64, mode string) {
 	} else {
 		esc = e.bal(transfertypes.GetEscrowAddress(port, ch.id), den)
 	}
-	e.out.Emit(op, fmt.Sprintf("done e=%d bk=%d v=%d esc=%d tm=%d rel=%s", e.ercOf(e.ercToken(st.tok, ch), a), e.bal(a.Bytes(), bk), v, esc, tm, e.rel()))
+	e.out.Emit(op, fmt.Sprintf("done e=%d bk=%d v=%d esc=%d tm=%d sup=%d rel=%s", e.ercOf(e.ercToken(st.tok, ch), a), e.bal(a.Bytes(), bk), v, esc, tm, e.supplyOf(e.ercToken(st.tok, ch)), e.rel()))
+	e.checkLedger(op)
 	e.out.Count("settle:" + mode + ":" + st.tok + fmt.Sprintf(":evm=%v", st.evm))
 	e.out.Count("settle-channel:" + map[bool]string{true: "local==counterparty", false: "local!=counterparty"}[ch.l == ch.r])
 	e.out.Nontrivial(fmt.Sprintf("settle|%s|%s|evm=%v", mode, st.tok, st.evm))
